@@ -548,9 +548,12 @@ def argRun (s : ArgState SProp) : List AOp → List (AObs × List Call)
 
 def gHas (g : SObj) : Bool := (alookup 0 g.props).isSome          -- HasBinding = [[HasProperty]]
 
-/-- §10.2.1.2.2 CreateMutableBinding(N, D): [[DefineOwnProperty]] {undefined, w, e, c = D} -/
-def gCreate (g : SObj) (configurable : Bool) : SObj :=
-  (defineOwn g 0 { noPD with value := some 0, writable := some true, enumerable := some true, configurable := some configurable }).getD g
+/-- §10.2.1.2.2 CreateMutableBinding(N, D): [[DefineOwnProperty]] {undefined, w, e, c = D} with Throw = true;
+    none = TypeError (the global object is not extensible) -/
+def gCreate? (g : SObj) (configurable : Bool) : Option SObj :=
+  defineOwn g 0 { noPD with value := some 0, writable := some true, enumerable := some true, configurable := some configurable }
+
+def gCreate (g : SObj) (configurable : Bool) : SObj := (gCreate? g configurable).getD g
 
 /-- §10.2.1.2.3 SetMutableBinding = [[Put]](N, V, S) with S = false -/
 def gSet (g : SObj) (v : Val) : SObj × List Call :=
@@ -559,14 +562,21 @@ def gSet (g : SObj) (v : Val) : SObj × List Call :=
 
 def gStep (g : SObj) : GOp → SObj × Outcome × List Call
   | .assign v => let r := gSet g v; (r.1, .ok, r.2)                 -- §8.7.2 step 3.b / 5 (both are [[Put]] on the global object)
-  | .varDecl eval => if !gHas g then (gCreate g eval, .ok, []) else (g, .ok, [])      -- §10.5 step 8
+  | .varDecl eval =>                                                -- §10.5 step 8
+    if !gHas g then (match gCreate? g eval with | some g1 => (g1, .ok, []) | none => (g, .typeError, []))
+    else (g, .ok, [])
   | .varInit v =>
-    let g1 := if !gHas g then gCreate g false else g
-    let r := gSet g1 v
-    (r.1, .ok, r.2)
+    if !gHas g then
+      (match gCreate? g false with
+       | some g1 => let r := gSet g1 v; (r.1, .ok, r.2)
+       | none => (g, .typeError, []))                               -- instantiation fails: the program does not run
+    else let r := gSet g v; (r.1, .ok, r.2)
   | .funDecl eval =>                                                -- §10.5 step 5
     match alookup 0 g.props with
-    | none => let r := gSet (gCreate g eval) fnVal; (r.1, .ok, r.2)                 -- 5.d, 5.f
+    | none =>                                                                       -- 5.d, 5.f
+      (match gCreate? g eval with
+       | some g1 => let r := gSet g1 fnVal; (r.1, .ok, r.2)
+       | none => (g, .typeError, []))
     | some existing =>
       if existing.configurable then                                                 -- 5.e.iii
         match defineOwn g 0 { noPD with value := some 0, writable := some true, enumerable := some true, configurable := some eval } with
@@ -582,6 +592,8 @@ def gStep (g : SObj) : GOp → SObj × Outcome × List Call
   | .defn d =>
     let r := step [g] (.defn 0 0 d)
     (r.1.headD g, r.2.1, [])
+  | .preventExt => let r := step [g] (.preventExt 0); (r.1.headD g, r.2.1, [])
+  | .seal => let r := step [g] (.seal 0); (r.1.headD g, r.2.1, [])
 
 def gObserve (g : SObj) : NameObs := observeName [g] 0 g 0
 
@@ -644,5 +656,28 @@ def builtinCreates (b : Builtin) : List Call × DescObs :=
   | .gopd => ([], .data 4 true true true)
   | .smatch | .split | .keys => ([], .data 997 true true true)
   | _ => ([], .data 4 true true true)
+
+/-- §15.2.3.7 steps 3-5 with a map whose members have side effects: the names are the own enumerable
+    properties at step 3 (a snapshot); step 5 reads EVERY one of them with [[Get]] – a member deleted meanwhile
+    reads as undefined, which ToPropertyDescriptor rejects; a member made non-enumerable meanwhile is still read -/
+def mapWalk (ents : List (Name × MAct)) : Nat → List Bool → List Name → Nat → Option (List Name)
+  | 0, _, acc, _ => some acc
+  | fuel + 1, dels, acc, i =>
+    match ents[i]? with
+    | none => some acc
+    | some (n, act) =>
+      if dels.getD i false then none
+      else
+        match act with
+        | .plain => mapWalk ents fuel dels (acc ++ [n]) (i + 1)
+        | .del j => mapWalk ents fuel (dels.set j true) (acc ++ [n]) (i + 1)
+        | .hide _ => mapWalk ents fuel dels (acc ++ [n]) (i + 1)
+        | .bad => none
+        | .thr => none
+
+def defineMap (ents : List (Name × MAct)) : Outcome × List Name :=
+  match mapWalk ents (ents.length + 1) (ents.map fun _ => false) [] 0 with
+  | none => (.typeError, [])
+  | some names => (.ok, names.eraseDups)
 
 end OttoVerif.C07.Spec
